@@ -123,6 +123,13 @@ func openStorage(dir string, opt Options) (*storage, error) {
 	if s.log, err = log.Open(filepath.Join(dir, "log"), 0700, logOpt); err != nil {
 		return nil, err
 	}
+	if s.log.LastIndex() < s.snaps.index {
+		// a crash while a snapshot was being installed: the snapshot was
+		// published but the log, which ends before it, was not yet replaced
+		if err = s.log.Reset(s.snaps.index); err != nil {
+			return nil, opError(err, "Log.Reset(%d)", s.snaps.index)
+		}
+	}
 	if s.log.Count() > 0 {
 		data, err := s.log.Get(s.log.LastIndex())
 		if err != nil {
